@@ -300,9 +300,7 @@ void exhaustive(const vf::Options& o, vf::Tally& tally)
    tally.notes["exhaustive_part"] = "fixed boundary sweep (all lengths 0..40, granule, 64 KiB, pool roll-over, exact fill, oversize, every reserved word and 5 near misses each) through both routes";
 }
 
-}   // namespace
-
-int main(int argc, char** argv)
+vf::Hooks<Case> make_hooks(const vf::Options&)
 {
    vf::Hooks<Case> hk;
    hk.generator = generator;
@@ -311,5 +309,25 @@ int main(int argc, char** argv)
    hk.from_text = from_text;
    hk.sample = sample;
    hk.exhaustive = exhaustive;
-   return vf::drive<Case>(argc, argv, "C03", hk);
+   return hk;
 }
+
+// libFuzzer mode: one route byte, then 5 bytes per word (kind, 16-bit length selector, 16-bit content seed)
+bool decode(const std::uint8_t* d, std::size_t n, const vf::Options&, Case& c)
+{
+   c = Case{};
+   if (n < 6) return false;
+   c.via_lexicon = d[0];
+   for (std::size_t i = 1; i + 5 <= n; i += 5) {
+      Word w;
+      w.kind = d[i];
+      w.len = std::uint32_t(d[i + 1]) | std::uint32_t(d[i + 2]) << 8;
+      w.seed = std::uint32_t(d[i + 3]) | std::uint32_t(d[i + 4]) << 8;
+      c.words.push_back(w);
+   }
+   return true;
+}
+
+}   // namespace
+
+VF_MAIN(Case, "C03", make_hooks, decode)
